@@ -220,7 +220,9 @@ fn gen_entry(src: &mut Src, idx: usize) -> Entry {
       let v = vary_name(src, &n);
       if v != n {
         e.name = Some(v);
-        if e.arch == "gaming-mouse" || e.arch == "cros_ec" {
+        // the ground truth of an archetype was stated for its own name: a keyboard that lost its
+        // EV line is only a keyboard as long as its name does not say "Mouse"
+        if e.truth == Some(true) || e.arch == "gaming-mouse" || e.arch == "cros_ec" {
           e.truth = None;
         }
       }
@@ -911,7 +913,7 @@ pub fn check(cfg: &RunCfg, _findings: &Findings) -> Report {
     cfg,
     "C16-text",
     16,
-    if quick { 10_000 } else { 150_000 },
+    if quick { 30_000 } else { 150_000 },
     64,
     300,
     |src: &mut Src| gen_text_case(src, real_ref),
@@ -970,7 +972,7 @@ pub fn check(cfg: &RunCfg, _findings: &Findings) -> Report {
   let bin = binary_path();
   rep.extra.insert("real_binary".into(), json!(bin.clone().unwrap_or("not built".into())));
   let shards = 16usize;
-  let per_shard: u32 = if quick { 400 } else { 6_000 };
+  let per_shard: u32 = if quick { 1_200 } else { 6_000 };
   let outs: Vec<Result<Value, String>> = par_map(cfg.threads, shards, |shard| {
     let mut cmd = std::process::Command::new(&exe);
     cmd.args(["c16-worker", &shard.to_string(), &per_shard.to_string(), &cfg.seed.to_string(), if quick { "quick" } else { "thorough" }]);
